@@ -165,20 +165,21 @@ impl PatchHeader {
 
     /// Set the description of the patch.
     pub fn set_description(&mut self, description: &str) {
-        if let Some(subject) = self.0.get("Subject") {
-            // Replace the first line with ours
-            let new = match subject.split_once('\n') {
-                Some((_, rest)) => format!("{}\n{}", description, rest),
-                None => description.to_string(),
-            };
-            self.0.set("Subject", new.as_str());
-        } else if let Some(old) = self.0.get("Description") {
+        // like description_field(): Description is read before Subject
+        if let Some(old) = self.0.get("Description") {
             // Replace the first line with ours
             let new = match old.split_once('\n') {
                 Some((_, rest)) => format!("{}\n{}", description, rest),
                 None => description.to_string(),
             };
             self.0.set("Description", new.as_str());
+        } else if let Some(subject) = self.0.get("Subject") {
+            // Replace the first line with ours
+            let new = match subject.split_once('\n') {
+                Some((_, rest)) => format!("{}\n{}", description, rest),
+                None => description.to_string(),
+            };
+            self.0.set("Subject", new.as_str());
         } else {
             self.0.set("Description", description);
         }
@@ -193,15 +194,8 @@ impl PatchHeader {
 
     /// Set the long description of the patch.
     pub fn set_long_description(&mut self, long_description: &str) {
-        if let Some(subject) = self.0.get("Subject") {
-            // Keep the first line, but replace the rest with our text
-            let first_line = subject
-                .split_once('\n')
-                .map(|x| x.0)
-                .unwrap_or(subject.as_str());
-            let new = format!("{}\n{}", first_line, long_description);
-            self.0.set("Subject", new.as_str());
-        } else if let Some(description) = self.0.get("Description") {
+        // like description_field(): Description is read before Subject
+        if let Some(description) = self.0.get("Description") {
             // Keep the first line, but replace the rest with our text
             let first_line = description
                 .split_once('\n')
@@ -209,6 +203,14 @@ impl PatchHeader {
                 .unwrap_or(description.as_str());
             let new = format!("{}\n{}", first_line, long_description);
             self.0.set("Description", new.as_str());
+        } else if let Some(subject) = self.0.get("Subject") {
+            // Keep the first line, but replace the rest with our text
+            let first_line = subject
+                .split_once('\n')
+                .map(|x| x.0)
+                .unwrap_or(subject.as_str());
+            let new = format!("{}\n{}", first_line, long_description);
+            self.0.set("Subject", new.as_str());
         } else {
             self.0.set("Description", long_description);
         }
